@@ -833,7 +833,7 @@ def run_shard(shard, ctx):
                                 idx += 1
                                 case = {'kind': 'lab', 'P': n_ch, 'fill': 0, 'mask': mask, 'method': method,
                                         'weighting': weighting, 'prec': prec,
-                                        'variants': _variants(0, bool(mask), idx + 1, ctx.tier) if th else [],
+                                        'variants': [],
                                         'design': {'type': 'lab', 'part': part,
                                                    'naming': 'desc' if (fp + mi) % 2 == 0 else 'str',
                                                    'fold': 'fp%d' % fp}}
